@@ -56,18 +56,28 @@ def gen_history(rng, tier):
         # directed: empty the table through deletes, let the compactor drop the row-sets, restart
         # (twice: the id generators restart from what is left in the log), insert again
         plan = ([0.0] * rng.randint(2, 3) + ["all"] + [0.8] + [0.95] * rng.randint(1, 2) + [0.0, None, 0.0, 0.8, None, 0.95, None])
+    elif uniq and rng.random() < 0.2:
+        # directed: a delete vector on an old row-set, restart (the id generators restart from the log), then a DELETE that touches
+        # only the row-set inserted after the restart; restart again
+        plan = [0.0, 0.0, "old", 0.95, 0.0, "newest", None, 0.95, None]
+    last_rows = [[]]
     for forced in plan:
-        r = rng.random() if forced is None or forced == "all" else forced
-        if forced == "all":
+        r = rng.random() if forced in (None, "all", "old", "newest") else forced
+        if forced in ("all", "old", "newest"):
             r = 0.5
         if r < 0.42:
             rows = new_rows(rng.choice([1, 2, 5, 12, 30, rng.randint(1, 60)]))
             # several VALUES chunks are one statement; sometimes two statements in one step
             steps.append({"sql": "insert into t values " + ", ".join("(" + ", ".join(lit(v) for v in row) + ")" for row in rows)})
             script.append(("insert", rows))
+            last_rows[0] = rows
         elif r < 0.70:
             kind = "all" if forced == "all" else rng.choice(["b=", "a<", "a>=", "a=", "bnull", "all", "mod", "none"])
             k = rng.randint(-5, 40)
+            if forced == "old":
+                kind, k = "a<", rng.randint(1, 4)          # some of the first keys (and the negative ones)
+            elif forced == "newest" and last_rows[0]:
+                kind, k = "a>=", min(abs(row[0]) for row in last_rows[0])
             pred, fn = mk_pred(kind, k, bdom)
             steps.append({"sql": "delete from t" + (f" where {pred}" if pred else "")})
             script.append(("delete", [kind, k, bdom]))
